@@ -133,6 +133,8 @@ pub struct Shape {
     pub exemptions: usize,
     pub aux: Option<AuxShape>,
     pub assertions: Vec<AssertSpec>,
+    /// application metadata carried in the TraceInfo (the sim AIR ignores it)
+    pub meta: Vec<u8>,
 }
 
 impl Shape {
@@ -174,8 +176,8 @@ impl Shape {
 
     pub fn trace_info(&self) -> TraceInfo {
         match &self.aux {
-            None => TraceInfo::new(self.width, self.len()),
-            Some(a) => TraceInfo::new_multi_segment(self.width, a.width, a.num_rands, self.len(), vec![]),
+            None => TraceInfo::new_multi_segment(self.width, 0, 0, self.len(), self.meta.clone()),
+            Some(a) => TraceInfo::new_multi_segment(self.width, a.width, a.num_rands, self.len(), self.meta.clone()),
         }
     }
 
@@ -783,7 +785,7 @@ pub fn gen_shape(ch: &mut Chooser, lim: &GenLimits, max_blowup: usize) -> Shape 
         rules.push(rule);
     }
 
-    let mut shape = Shape { width, log_len, rules, periodic, exemptions: 1, aux, assertions: vec![] };
+    let mut shape = Shape { width, log_len, rules, periodic, exemptions: 1, aux, assertions: vec![], meta: vec![] };
 
     // exemptions: 1..=n/2+1, also bounded by the composition-degree rule of AirContext
     let blow = shape.min_blowup();
@@ -846,6 +848,17 @@ pub fn gen_shape(ch: &mut Chooser, lim: &GenLimits, max_blowup: usize) -> Shape 
     }
     if shape.assertions.is_empty() {
         shape.assertions.push(AssertSpec { kind: AssertKind::Single, col: 0, first: 0, stride: 0, count: 1 });
+    }
+    // trace metadata: mostly none; a few bytes; a chunk boundary of to_elements (7 / 8 / 15 / 16)
+    let ml = match ch.weighted("shape.meta", &[6, 2, 1, 1]) {
+        0 => 0,
+        1 => 1 + ch.index("shape.metalen", 6),
+        2 => *ch.choose("shape.metalen", &[7usize, 8, 14, 15, 16]),
+        _ => 17 + ch.index("shape.metalen", 30),
+    };
+    if ml > 0 {
+        let mut r = simcore::rng::Xoshiro::from_u64(ch.u64("shape.metasalt"));
+        shape.meta = (0..ml).map(|_| 1 + (r.next() % 255) as u8).collect();
     }
     shape
 }
